@@ -145,7 +145,7 @@ def main(tier):
             json.dump(inst["inp"], f)
         inst["path"] = path
         jobs.append(dict(module_path=MODULE, cfg=tlc.make_cfg(constants=inst["consts"], invariants=["TypeSound", "AlgebraLaws", "Emit"]),
-                         constants=inst["consts"], env={"PROG_INPUT": path}, workers=8, coverage=True, timeout=6000))
+                         constants=inst["consts"], env={"PROG_INPUT": path}, workers=8, coverage=False, timeout=6000))
     sims = []
     n_sim = 12 if tier == "quick" else 400
     sconst = dict(insts[0]["consts"], MaxDepth=4)
